@@ -64,7 +64,9 @@ def make_shards(tier, ops=None, regimes=("R1", "R3"), typed=True, prefix=""):
         if ops and op not in ops:
             continue
         for n in range(minn, op_cap(op, tier) + 1):
-            for sh in shapes(n):
+            for si, sh in enumerate(shapes(n)):
+                if n == 5 and si % 3:
+                    continue  # every third 5-node shape
                 for regime in regimes:
                     if op in ("meta", "filter", "clear", "remove_children") and regime == "R3":
                         continue  # labels/ids are irrelevant to these operations
@@ -97,11 +99,14 @@ def make_shards(tier, ops=None, regimes=("R1", "R3"), typed=True, prefix=""):
                     out.append({"name": "%s%s-R1-%s-o%s" % (prefix, op, shape_str(sh), "".join(map(str, order))), "op": op, "shape": list(sh), "regime": "R1", "order": list(order)})
     if tier != "quick":
         # two-step histories: a state-shaping first step, then the operation under test
+        three = {("move", "move"), ("move", "remove"), ("remove_keep", "add"), ("remove_keep", "move"), ("set_data_wc", "set_data"), ("remove", "add")}
         for first in MU.FIRST_OPS:
             for op in ("add", "move", "remove", "set_data", "copy_node"):
                 if ops and op not in ops:
                     continue
                 for n in (2, 3):
+                    if n == 3 and (first, op) not in three:
+                        continue  # sized to keep the thorough tier near 25 min
                     for sh in shapes(n):
                         out.append({"name": "%s2step-%s+%s-%s" % (prefix, first, op, shape_str(sh)), "op": op, "first": first, "shape": list(sh), "regime": "R1", "cost": 15})
     if typed:
@@ -109,7 +114,9 @@ def make_shards(tier, ops=None, regimes=("R1", "R3"), typed=True, prefix=""):
         for op in MU.TYPED_OPS:
             if ops and op not in ops:
                 continue
-            for n in range(MU.OPS[op], NT + 1):
+            # (typed 3-node shards of add / copy_node / move did not exhaust in 20 min)
+            cap = NT if op not in ("add", "copy_node", "move") else 2
+            for n in range(MU.OPS[op], cap + 1):
                 for sh in shapes(n):
                     d = {"name": "%styped-%s-%s" % (prefix, op, shape_str(sh)), "op": op, "shape": list(sh), "regime": "R1", "typed": True}
                     if op == "move":
